@@ -568,6 +568,7 @@ def _means(prog):
             ex.opaque_self_attrs = {"lin_slc", "quad_slc", "n_data"}
             ex.array_pred = lambda a: a[0] == "sym" and a[1] != "theta[0]"
             ex.n_atom = R.sym("d")
+            ex.on_for = lambda node, env: "skip"      # loops only fill the gradient list, whose layout is decided separately
             return ex
         theta = R.sym("theta")
         ex = mk()
